@@ -60,6 +60,7 @@ type Job struct {
 	RealNever  int         `json:"real_never"` // runs in which a silent upstream is left to the worker's own 5 s timeout
 	StepWaitMs int         `json:"step_wait_ms"`
 	Early      int         `json:"early"` // runs in which the call returns before (some) workers have started
+	Multi      int         `json:"multi"` // rounds with several execs configured on one Forward instance
 }
 
 type Event map[string]any
@@ -129,6 +130,7 @@ func (u *fakeUp) ExchangeContext(ctx context.Context, m []byte) (*[]byte, error)
 	if s == nil {
 		return nil, errors.New("harness: no scenario")
 	}
+	arrived := time.Now()
 	s.mu.Lock()
 	c := &call{cid: len(s.calls) + 1, m: m, snap: append([]byte{}, m...), ctx: ctx, release: make(chan string, 1), honour: s.honourAll}
 	pos, ok := s.posOf[u.id]
@@ -148,20 +150,22 @@ func (u *fakeUp) ExchangeContext(ctx context.Context, m []byte) (*[]byte, error)
 	}
 	s.mu.Unlock()
 
+	// like every real transport the harness upstream honours its context: if it ends before the
+	// controller releases the exchange, that is recorded (UpCtxDone) and the context's error returned
 	var o string
-	if c.honour {
-		select {
-		case o = <-c.release:
-		case <-ctx.Done():
-			s.mu.Lock()
-			c.released = true
-			s.log("Release", "cid", c.cid, "o", "never", "intact", bytes.Equal(c.m, c.snap),
-				"after_ms", time.Since(s.t0).Milliseconds())
+	select {
+	case o = <-c.release:
+	case <-ctx.Done():
+		s.mu.Lock()
+		if c.released { // the controller has just released it: that event is already in the trace
 			s.mu.Unlock()
-			return nil, ctx.Err()
+			o = <-c.release
+			break
 		}
-	} else {
-		o = <-c.release
+		c.released = true
+		s.log("UpCtxDone", "cid", c.cid, "intact", bytes.Equal(c.m, c.snap), "after_ms", time.Since(arrived).Milliseconds())
+		s.mu.Unlock()
+		return nil, ctx.Err()
 	}
 	switch o {
 	case "good", "nx", "bad":
@@ -255,7 +259,18 @@ type execRes struct {
 var errCause = errors.New("harness: caller gave up")
 
 // runOne drives one call of forward.Exec.
+// a pre-configured way to call one Forward instance (multi-exec scenarios)
+type preset struct {
+	exec  func(context.Context, *query_context.Context) error
+	posOf map[int]int
+	conf  string
+}
+
 func runOne(idx int, b *Behaviour, kind string, job *Job, rng *rand.Rand) Out {
+	return runOneWith(idx, b, kind, job, rng, nil)
+}
+
+func runOneWith(idx int, b *Behaviour, kind string, job *Job, rng *rand.Rand, pre *preset) Out {
 	out := Out{Idx: idx, Kind: kind}
 	stepWait := time.Duration(job.StepWaitMs) * time.Millisecond
 	base := runtime.NumGoroutine()
@@ -282,7 +297,9 @@ func runOne(idx int, b *Behaviour, kind string, job *Job, rng *rand.Rand) Out {
 	}
 	s := &scenario{posOf: map[int]int{}, honourAll: kind == "never", instant: kind == "early-instant", t0: time.Now()}
 	var exec func(context.Context, *query_context.Context) error
-	if useTags {
+	if pre != nil {
+		exec, s.posOf, out.Conf = pre.exec, pre.posOf, pre.conf
+	} else if useTags {
 		perm := rng.Perm(poolN)[:n]
 		arg := ""
 		for p, id := range perm {
@@ -410,6 +427,7 @@ func runOne(idx int, b *Behaviour, kind string, job *Job, rng *rand.Rand) Out {
 		steered = poll(stepWait, func() bool { return ncalls() >= b.K })
 		if !steered {
 			out.Why = fmt.Sprintf("only %d of %d exchanges started", ncalls(), b.K)
+			stuck++
 		}
 		time.Sleep(200 * time.Microsecond) // let surplus exchanges (if any) show up early; they are logged whenever they come
 	} else if kind == "random" || kind == "never" {
@@ -577,6 +595,63 @@ func runOne(idx int, b *Behaviour, kind string, job *Job, rng *rand.Rand) Out {
 	return out
 }
 
+func runMulti(idx *int, job *Job, rng *rand.Rand) []Out {
+	poolN := 2 + rng.Intn(3)
+	c := []int{1, 2, 3, 5}[rng.Intn(4)]
+	ups := make([]upstream.Upstream, poolN)
+	tags := make([]string, poolN)
+	for i := range ups {
+		ups[i] = &fakeUp{id: i}
+		tags[i] = fmt.Sprintf("t%d", i)
+	}
+	f, err := fastforward.NewForwardWithUpstreams(c, ups, tags)
+	if err != nil {
+		return []Out{{Idx: *idx, Kind: "multi", Why: "constructor: " + err.Error()}}
+	}
+	type ex = interface {
+		Exec(context.Context, *query_context.Context) error
+	}
+	var pres []*preset
+	all := map[int]int{}
+	for i := 0; i < poolN; i++ {
+		all[i] = i
+	}
+	nsub := 2 + rng.Intn(2)
+	var subsConf string
+	for j := 0; j < nsub; j++ {
+		n := 1 + rng.Intn(poolN)
+		perm := rng.Perm(poolN)[:n]
+		arg := ""
+		posOf := map[int]int{}
+		for p, id := range perm {
+			posOf[id] = p
+			arg += " " + tags[id]
+		}
+		v, err := f.QuickConfigureExec(arg[1:])
+		if err != nil {
+			return []Out{{Idx: *idx, Kind: "multi", Why: "QuickConfigureExec: " + err.Error()}}
+		}
+		subsConf += fmt.Sprintf("[%s]", arg[1:])
+		pres = append(pres, &preset{exec: v.(ex).Exec, posOf: posOf, conf: fmt.Sprintf("n=%d c=%d tags=%q", n, c, arg[1:])})
+	}
+	if v, err := f.QuickConfigureExec(""); err == nil {
+		pres = append(pres, &preset{exec: v.(ex).Exec, posOf: all, conf: fmt.Sprintf("n=%d c=%d quick-exec-without-tags", poolN, c)})
+	}
+	pres = append(pres, &preset{exec: f.Exec, posOf: all, conf: fmt.Sprintf("n=%d c=%d plugin", poolN, c)})
+	rng.Shuffle(len(pres), func(i, j int) { pres[i], pres[j] = pres[j], pres[i] })
+	var outs []Out
+	for _, pr := range pres {
+		pr.conf += fmt.Sprintf(" (one Forward of %d upstreams, configured %s first)", poolN, subsConf)
+		b := &Behaviour{N: len(pr.posOf), C: c}
+		o := runOneWith(*idx, b, "random", job, rng, pr)
+		o.Kind = "multi"
+		o.Beh = b
+		outs = append(outs, o)
+		*idx++
+	}
+	return outs
+}
+
 func collectsBefore(b *Behaviour, st Step) int {
 	n := 0
 	for _, x := range b.Steps {
@@ -654,6 +729,14 @@ func main() {
 		idx++
 		if stuck >= maxStuck || leaked >= maxStuck {
 			break
+		}
+	}
+	// several execs configured on ONE Forward (tag subsets that are not prefixes of U, the plugin itself,
+	// the no-argument quick exec), all configured first, then used one after the other: every exec must
+	// ask its own configured list
+	for i := 0; i < job.Multi && stuck < maxStuck && leaked < maxStuck; i++ {
+		for _, o := range runMulti(&idx, &job, rng) {
+			vh.Emit(o)
 		}
 	}
 	// the call returns before workers have started: context already cancelled / an instantly answering
